@@ -67,6 +67,15 @@ theorem acked_indexed (A : UtxoAlg) (hA : A.Lawful) (cfg : Cfg) (hp : cfg.prune 
     (b :: p) ∈ rowKeys ((runOps cfg (deliver cfg (runOps cfg nd0 ops1) b p).1 ops2).log.take k) :=
   acked_indexed_aux hA cfg hp ops1 ops2 nd0 h0 b p hack k hk
 
+/-- `ProcessBlockHeader` leaves no durable trace: no commit, same image (header-only
+index nodes are never written), so it cannot create a crash point. -/
+theorem header_no_commit (A : UtxoAlg) (cfg : Cfg) (nd : Node A) (b : Blk) (p : Chain) :
+    (step cfg nd (.header b p)).1.log = nd.log ∧ (step cfg nd (.header b p)).1.img = nd.img := by
+  simp only [step]
+  split
+  · exact ⟨rfl, rfl⟩
+  · split <;> exact ⟨rfl, rfl⟩
+
 /-- The block-store / index split, precisely: `maybeAcceptBlock` commits the raw
 block (`dbStoreBlock`) and its index row (`flushToDB`) in two transactions.  In
 ANY image that satisfies the invariant (by `prefix_invariant`: any crash image)
